@@ -92,7 +92,7 @@ F3c == { Cat(<<BRef(1), Grp(A)>>), Cat(<<Grp(Cat(<<A, BRef(2)>>)), Grp(B)>>),
          Cat(<<Alt(<<Grp(Dot), Rep(BRef(1), 1, 3, TRUE)>>), Cls(TRUE, <<IC(cs)>>)>>),
          Cat(<<Grp(Cat(<<Rep(A, 1, 2, FALSE), Opt(BRef(1))>>)), Chr(cc)>>) }
 F3 == With(F3a \cup F3b \cup F3c, NoFlags) \cup With(F3c, Flags(TRUE, FALSE, FALSE, FALSE, FALSE))
-F3Hay == [alpha |-> {ca, cb, cc}, maxlen |-> IF Thorough THEN 5 ELSE 4]
+F3Hay == [alpha |-> {ca, cb, cc}, maxlen |-> IF Thorough THEN 5 ELSE 3]
 
 (***************************************************************************)
 (* F4: look-arounds                                                        *)
@@ -153,7 +153,11 @@ F7Lits == {F7Lit(n, off) : n \in F7Lens, off \in 0..(IF Thorough THEN 4 ELSE 1)}
 LitNode(s) == Cat([k \in DOMAIN s |-> Chr(s[k])])
 F7Pats(s) == { LitNode(s), Cat(<<Look(LitNode(s), TRUE, FALSE), Eol>>),
                Cat(<<Look(LitNode(s), TRUE, TRUE), Eol>>), Cat(<<Grp(LitNode(s)), BRef(1)>>),
-               Cat(<<LitNode(s), Star(Chr(s[1]))>>), Alt(<<LitNode(s), LitNode(Tail(s) \o <<cx>>)>>) }
+               Cat(<<LitNode(s), Star(Chr(s[1]))>>), Alt(<<LitNode(s), LitNode(Tail(s) \o <<cx>>)>>),
+               \* a look-behind *before* the literal, and a look-ahead nested in a look-behind before it
+               Cat(<<Look(Chr(cx), TRUE, FALSE), LitNode(s)>>), Cat(<<Look(Chr(cx), TRUE, TRUE), LitNode(s)>>),
+               Cat(<<Look(Cat(<<Look(Chr(s[1]), FALSE, FALSE), LitNode(s)>>), TRUE, FALSE), Eol>>),
+               Cat(<<Look(Chr(s[1]), FALSE, FALSE), LitNode(s), Look(Chr(s[Len(s)]), TRUE, FALSE)>>) }
 \* haystacks are built from the literal itself
 F7HaysOf(s) == { s, s \o s, SubSeq(s, 1, Len(s) - 1), <<cx>> \o s, s \o <<cx>>, Tail(s) \o <<cx>>,
                  <<cGrin>> \o s \o <<cEuro>>, <<>>, [k \in DOMAIN s |-> IF k = Len(s) THEN cx ELSE s[k]],
@@ -170,14 +174,66 @@ F8First == { A, Lit2(ca, cb), Lit2(ca, cc), Chr(cEacute), Chr(cEuro), Chr(cGrin)
              Cls(FALSE, <<IR(cEacute, cEuro)>>), Opt(A), Plus(A), Rep(Lit2(ca, cb), 1, 2, TRUE),
              Look(A, FALSE, FALSE), Look(B, FALSE, TRUE), Look(A, TRUE, FALSE), Bol, Grp(A), Grp(Bol),
              Empty, Dot, Wb(FALSE), Mod(<<"m">>, <<>>, Bol), Mod(<<"i">>, <<>>, Chr(ck)),
-             Cat(<<Look(A, FALSE, FALSE), Chr(ca)>>), Star(Cls(TRUE, <<IC(ca)>>)), Chr(cHiSurr) }
-F8Pats == {Alt(<<x, y>>) : x \in F8First, y \in F8First}
+             Cat(<<Look(A, FALSE, FALSE), Chr(ca)>>), Star(Cls(TRUE, <<IC(ca)>>)), Chr(cHiSurr),
+             \* loops that survive the optimizer (capture inside, or minimum above the unroll threshold)
+             Rep(Grp(Cat(<<A, Opt(B)>>)), 2, 2, TRUE), Rep(Grp(Alt(<<Lit2(ca, cb), Lit2(ca, cc)>>)), 2, 3, TRUE),
+             Rep(Ncg(Cat(<<A, Opt(B)>>)), 6, 7, TRUE), Rep(Grp(Lit2(ca, cb)), 1, 2, FALSE),
+             \* optional loops whose body is anchored
+             Opt(Ncg(Cat(<<Bol, A>>))), Star(Grp(Bol)), Opt(Grp(Cat(<<Bol, Chr(cEacute)>>))), Plus(Ncg(Cat(<<Bol, A>>))) }
+F8Small == { A, Lit2(ca, cb), Chr(cEacute), Cls(TRUE, <<IC(ca)>>), Opt(A), Look(A, TRUE, FALSE), Look(B, FALSE, TRUE),
+             Bol, Empty, Grp(Bol), Chr(ck), Rep(Grp(Cat(<<A, Opt(B)>>)), 2, 2, TRUE), Opt(Ncg(Cat(<<Bol, A>>))) }
+F8Second == IF Thorough THEN F8First ELSE F8Small
+F8Pats == {Alt(<<x, y>>) : x \in F8First, y \in F8Second} \cup {Alt(<<y, x>>) : x \in F8First, y \in F8Second}
             \cup {Cat(<<x, y>>) : x \in F8First, y \in {A, B, Empty, Eol}}
             \cup {Cat(<<Alt(<<x, y>>), B>>) : x \in {A, Bol, Lit2(ca, cb), Opt(A)}, y \in F8First}
-F8Flags == { NoFlags, Flags(TRUE, FALSE, FALSE, TRUE, FALSE), Flags(FALSE, TRUE, FALSE, FALSE, FALSE) }
+            \cup {Cat(<<Alt(<<y, x>>), Chr(cc)>>) : x \in {Look(A, FALSE, FALSE), Look(B, TRUE, FALSE), Wb(FALSE), Empty}, y \in F8Small}
+F8Flags == IF Thorough THEN { NoFlags, Flags(TRUE, FALSE, FALSE, TRUE, FALSE), Flags(FALSE, TRUE, FALSE, FALSE, FALSE) }
+           ELSE { NoFlags, Flags(TRUE, TRUE, FALSE, TRUE, FALSE) }
 F8 == UNION {With(F8Pats, fl) : fl \in F8Flags}
-F8Hay == [alpha |-> {ca, cb, cEacute, cK} \cup (IF Thorough THEN {cGrin, cKelvin, cNL} ELSE {cKelvin}),
+F8Hay == [alpha |-> {ca, cb, cc, cEacute} \cup (IF Thorough THEN {cGrin, cKelvin, cNL, cK} ELSE {}),
           maxlen |-> 3]
+
+(***************************************************************************)
+(* F9: counted loops around the optimizer's unroll threshold (5), on       *)
+(* haystacks long enough to exceed the maximum                             *)
+(***************************************************************************)
+F9Atoms == { A, Cls(FALSE, <<IC(ca), IC(cb)>>), Dot, Grp(A), Ncg(Cat(<<A, Opt(B)>>)), Chr(cEacute) }
+F9Q == { <<mn, mx, g>> : mn \in (IF Thorough THEN 3..8 ELSE {4, 5, 6, 7}),
+                         mx \in {-1, 0, 1, 2}, g \in BOOLEAN }
+F9Quant(at, q) == Rep(at, q[1], IF q[2] = -1 THEN -1 ELSE q[1] + q[2], q[3])
+F9Pats == UNION { { Cat(<<F9Quant(at, q), B>>), Cat(<<Bol, F9Quant(at, q), Eol>>), Grp(F9Quant(at, q)),
+                    Cat(<<Look(F9Quant(at, q), TRUE, FALSE), B>>), Cat(<<F9Quant(at, q), A>>) }
+                  : at \in F9Atoms, q \in F9Q }
+F9Run(c, n) == [k \in 1..n |-> c]
+F9Hays == { F9Run(ca, n) : n \in 0..10 } \cup { F9Run(ca, n) \o <<cb>> : n \in 0..10 }
+            \cup { F9Run(cEacute, n) \o <<cb>> : n \in 4..9 } \cup { F9Run(ca, n) \o <<cb, ca, ca>> : n \in 4..8 }
+F9 == { [ast |-> n, fl |-> NoFlags, hays |-> F9Hays] : n \in F9Pats }
+
+(***************************************************************************)
+(* F1b: two different loops in a row (the second bounded)                  *)
+(***************************************************************************)
+F1bFirst == { Esc("w"), Cls(FALSE, <<IC(ca), IC(cb)>>), Dot, A }
+F1bQ1 == { <<0, -1, FALSE>>, <<1, -1, FALSE>>, <<1, 2, FALSE>>, <<0, -1, TRUE>>, <<0, 1, FALSE>> }
+F1bSecond == { B, Cls(FALSE, <<IC(cb), IC(cc)>>), Esc("w") }
+F1bQ2 == { <<0, 2, TRUE>>, <<1, 2, TRUE>>, <<2, 3, FALSE>>, <<6, -1, TRUE>>, <<0, 1, TRUE>>, <<2, 2, TRUE>>, <<0, 2, FALSE>> }
+F1b == With({ Cat(<<Quant(x, q1), Grp(Quant(y, q2)), Chr(cc)>>) :
+                x \in F1bFirst, q1 \in F1bQ1, y \in F1bSecond, q2 \in F1bQ2 }
+            \cup { Cat(<<Quant(x, q1), Quant(y, q2)>>) : x \in F1bFirst, q1 \in F1bQ1, y \in F1bSecond, q2 \in F1bQ2 }, NoFlags)
+F1bHay == [alpha |-> {ca, cb, cc}, maxlen |-> IF Thorough THEN 6 ELSE 5]
+
+(***************************************************************************)
+(* F13: what distinguishes the ASCII entry points: case folding of bytes   *)
+(* that differ in bit 5, word characters next to '_', non-ASCII pattern    *)
+(* characters that can never match                                         *)
+(***************************************************************************)
+F13Pats == { Cat(<<Grp(Dot), BRef(1)>>), Cat(<<Look(Cat(<<Grp(Dot), BRef(1)>>), TRUE, FALSE), Eol>>),
+             Cat(<<Wb(FALSE), Plus(Esc("w")), Wb(FALSE)>>), Cat(<<Dot, Wb(TRUE)>>), Cat(<<Wb(FALSE), Dot>>),
+             Star(Esc("w")), Plus(Esc("W")), Cat(<<Star(Chr(cEacute)), Dot>>), Cat(<<LazyStar(Chr(cEuro)), Chr(95)>>),
+             Cls(FALSE, <<IC(cKelvin), IC(95)>>), Cls(TRUE, <<IC(cLongS)>>), Chr(cs), Chr(ck), Chr(95), Chr(64),
+             Cat(<<Opt(Chr(cHiSurr)), Dot>>), Cls(FALSE, <<IR(64, 96)>>), Cat(<<Grp(Cls(FALSE, <<IR(64, 96)>>)), Star(BRef(1))>>) }
+F13Flags == { NoFlags, Flags(TRUE, FALSE, FALSE, FALSE, FALSE), Flags(TRUE, FALSE, FALSE, TRUE, FALSE), UFlags }
+F13 == UNION {With(F13Pats, fl) : fl \in F13Flags}
+F13Hay == [alpha |-> {ca, 65, 95, 64, 96, 91, 123, c1, 17, cSP, cs, cK}, maxlen |-> 2]
 
 (***************************************************************************)
 (* F10: named and duplicate-named groups                                   *)
@@ -196,7 +252,20 @@ F10Pats ==
     Cat(<<Look(NGrp(nA, A), TRUE, FALSE), KRef(nA)>>),
     Alt(<<Cat(<<NGrp(nA, A), Grp(B)>>), Cat(<<Grp(B), NGrp(nA, A)>>), NGrp(nB, Chr(cc))>>),
     Alt(<<NGrp(nA, A), Cat(<<NGrp(nB, B), Alt(<<NGrp(nA, Chr(cc)), Empty>>)>>)>>),
-    Star(Alt(<<NGrp(nA, A), Cat(<<B, NGrp(nA, Opt(Chr(cc)))>>)>>)) }
+    Star(Alt(<<NGrp(nA, A), Cat(<<B, NGrp(nA, Opt(Chr(cc)))>>)>>)),
+    \* one name in three alternatives
+    Alt(<<NGrp(nA, A), NGrp(nA, B), NGrp(nA, Chr(cc))>>),
+    Plus(Ncg(Alt(<<NGrp(nA, A), NGrp(nA, B), NGrp(nA, Chr(cc))>>))),
+    Cat(<<Ncg(Alt(<<NGrp(nA, A), NGrp(nB, B), NGrp(nA, Chr(cc))>>)), Opt(KRef(nA))>>),
+    \* several named groups inside one look-behind / look-ahead
+    Cat(<<Look(Cat(<<NGrp(nA, A), NGrp(nB, B)>>), TRUE, FALSE), Chr(cc)>>),
+    Cat(<<Look(Cat(<<NGrp(nA, Dot), Grp(Dot), NGrp(nB, Dot)>>), TRUE, FALSE), Eol>>),
+    Cat(<<Look(Cat(<<NGrp(nA, A), NGrp(nB, B)>>), FALSE, FALSE), Dot>>),
+    Cat(<<Grp(A), Look(Cat(<<NGrp(nB, Dot), NGrp(nA, Dot)>>), TRUE, FALSE)>>),
+    \* named groups that never participate
+    Cat(<<Look(NGrp(nA, A), FALSE, TRUE), NGrp(nB, Dot)>>),
+    Cat(<<Rep(NGrp(nA, A), 0, 0, TRUE), NGrp(nB, Opt(B))>>),
+    Alt(<<Cat(<<Cls(FALSE, <<>>), NGrp(nA, A)>>), NGrp(nB, B)>>) }
 F10 == With(F10Pats, NoFlags) \cup With(F10Pats, UFlags)
 F10Hay == [alpha |-> {ca, cb, cc}, maxlen |-> IF Thorough THEN 5 ELSE 4]
 
@@ -217,4 +286,7 @@ FamilyCases(name) ==
     [] name = "F7" -> F7
     [] name = "F8" -> AttachHays(F8, F8Hay)
     [] name = "F10" -> AttachHays(F10, F10Hay)
+    [] name = "F9" -> F9
+    [] name = "F1b" -> AttachHays(F1b, F1bHay)
+    [] name = "F13" -> AttachHays(F13, F13Hay)
 =============================================================================
